@@ -219,7 +219,7 @@ func propC08(c *Check) {
 		if site.cover != "rest" {
 			c.requireFactFrom(pp, "R1", "first-tx-one-message", alt(notFirst, lit(EQ("1", "len("+msgs+")"))), vc, next, "next tx / ACCEPT")
 			c.requireFactFrom(pp, "R1", "first-tx-is-MsgNewEthBlock", alt(notFirst, lit(msgs+"[0].(*goat/types.MsgNewEthBlock)#1")), vc, next, "next tx / ACCEPT")
-			c.requireFactFrom(pp, "R1", "first-tx-block-verified", alt(notFirst, lit("(Keeper.verifyEthBlockProposal("+msgs+"[0].(*goat/types.MsgNewEthBlock)#0) == nil)")), vc, next, "next tx / ACCEPT")
+			c.requireFactFrom(pp, "R1", "first-tx-block-verified", alt(notFirst, `^\(Keeper\.verifyEthBlockProposal\((?:[^()]*(?:\([^()]*(?:\([^()]*\))?[^()]*\))?[^()]*, )*`+regexp.QuoteMeta(msgs+"[0].(*goat/types.MsgNewEthBlock)#0")+`\) == nil\)$`), vc, next, "next tx / ACCEPT")
 		}
 		if site.cover != "first" {
 			// every message inspected: the inspection loop runs to the end, or the library search over all
